@@ -611,7 +611,19 @@ fn run_wasm(job: &Job, res: &mut RunResult) {
                     if l.lint_kind.is_spelling() {
                         let flagged: String = text[l.span.start..l.span.end.min(text.len())].iter().collect();
                         if ws.contains(&flagged) {
-                            let class = if has_variant_pair(&m.words) { "case_variant_words" } else { "imported_word_flagged" };
+                            let fchars: Vec<char> = flagged.chars().collect();
+                            let other_dialect = {
+                                use harper_core::Dictionary as _;
+                                let d: harper_core::Dialect = dialect.into();
+                                FstDictionary::curated().get_word_metadata(&fchars).and_then(|md| md.dialect).map(|x| x != d).unwrap_or(false)
+                            };
+                            let class = if has_variant_pair(&m.words) {
+                                "case_variant_words"
+                            } else if other_dialect {
+                                "other_dialect_word_added"
+                            } else {
+                                "imported_word_flagged"
+                            };
                             viol(res, prop, "imported_word_accepted", class, format!("{what}: '{flagged}' was imported with import_words and is still reported as misspelt"), json!({}));
                         }
                     }
